@@ -141,7 +141,12 @@ class Unit:
         # discharge; identical obligations reached on several paths keep distinct names via a path counter
         seen = {}
         out = []
+        dedupe = set()
         for o in obls:
+            key = (o.name, o.goal.get_id(), tuple(h.get_id() for h in o.hyps))
+            if key in dedupe:
+                continue
+            dedupe.add(key)
             n = seen.get(o.name, 0)
             seen[o.name] = n + 1
             r = smt.discharge_one(o, cross=cross)
